@@ -26,6 +26,7 @@ from _ast import FloorDiv
 from _ast import Gt
 from _ast import GtE
 from _ast import If
+from _ast import Lambda
 from _ast import In
 from _ast import Invert
 from _ast import Is
@@ -516,7 +517,11 @@ class SourceGenerator(NodeVisitor):
         self.write("(")
         for arg in node.args:
             write_comma()
-            self.visit(arg)
+            if isinstance(arg, Lambda):
+                # ... but needs none as an argument of a call
+                self.visit_Lambda(arg, bare=True)
+            else:
+                self.visit(arg)
         for keyword in node.keywords:
             write_comma()
             # f(**d) is a keyword without a name
@@ -650,11 +655,13 @@ class SourceGenerator(NodeVisitor):
         self.write("yield ")
         self.visit(node.value)
 
-    def visit_Lambda(self, node):
-        self.write("lambda ")
+    def visit_Lambda(self, node, bare=False):
+        # a lambda is an operand only in parentheses ...
+        self.write("lambda " if bare else "(lambda ")
         self.signature(node.args)
         self.write(": ")
         self.visit(node.body)
+        self.write("" if bare else ")")
 
     def generator_visit(left, right):
         def visit(self, node):
